@@ -11,7 +11,8 @@ use frost_core::keys::{
 };
 use frost_core::round1::{SigningCommitments, SigningNonces};
 use frost_core::round2::SignatureShare;
-use frost_core::{Element, Field, Group, Identifier, Scalar, SigningKey, SigningPackage};
+pub use frost_core::{Field, Group};
+use frost_core::{Element, Identifier, Scalar, SigningKey, SigningPackage};
 use serde::{Deserialize, Serialize};
 use std::collections::BTreeMap;
 
@@ -630,4 +631,28 @@ pub fn cached_group<C: Suite>(
         .unwrap()
         .insert(key, Arc::new(r.clone()) as Arc<dyn Any + Send + Sync>);
     r.map(Arc::new)
+}
+
+// ---------------------------------------------------------------------
+// signature-share scalars
+// ---------------------------------------------------------------------
+pub fn sc_from_bytes<C: Suite>(b: &[u8]) -> Option<Scalar<C>> {
+    let ser: <F<C> as Field>::Serialization = b.try_into().ok()?;
+    F::<C>::deserialize(&ser).ok()
+}
+pub fn share_scalar<C: Suite>(s: &SignatureShare<C>) -> Scalar<C> {
+    sc_from_bytes::<C>(&s.serialize()).expect("share scalar")
+}
+pub fn share_from_scalar<C: Suite>(s: Scalar<C>) -> SignatureShare<C> {
+    SignatureShare::<C>::deserialize(&sc_bytes::<C>(&s)).expect("share from scalar")
+}
+/// Y parity of an element for SEC1 suites (first byte 0x03 = odd); None otherwise.
+pub fn sec1_is_odd<C: Suite>(e: &Element<C>) -> Option<bool> {
+    let b = el_bytes::<C>(e)?;
+    if b.len() == 33 { Some(b[0] == 3) } else { None }
+}
+pub fn culprit_set<C: Suite>(e: &fc::Error<C>) -> Vec<String> {
+    let mut v: Vec<String> = e.culprits().iter().map(|i| id_hex::<C>(i)).collect();
+    v.sort();
+    v
 }
